@@ -91,7 +91,7 @@ func Load(dir, goos, goarch string) (*Prog, error) {
 			p.InlineNotes = append(p.InlineNotes, "loop unrolling was attempted but the rewritten program does not type-check ("+firstLine(err2.Error())+"); analysing the original program")
 		}
 	}
-	for round := 0; round < 3; round++ {
+	for round := 0; round < 8; round++ {
 		ov, notes := p.inlineOverlay()
 		if len(ov) == 0 {
 			break
